@@ -97,6 +97,12 @@ struct Node {
     next_elapsed: Option<bool>,
 }
 
+impl Node {
+    fn leaves(&self) -> u64 {
+        if self.children.is_empty() { 1 } else { self.children.values().map(|c| c.leaves()).sum() }
+    }
+}
+
 type Schedule = Vec<(String, u64)>;
 
 struct Group {
@@ -121,9 +127,15 @@ fn walk(g: &Group, seed: u64, unit: u64) -> RunResult {
     let case = |path: &Vec<(u64, u64)>| json!({"kind": "backoff-run", "cfg": g.cfg.json(), "seed": seed, "unit": unit,
         "schedule": g.schedule.iter().map(|(a, dt)| json!({"a": a, "dt": dt})).collect::<Vec<_>>(),
         "observed": path.iter().map(|(v, r)| json!([v, r])).collect::<Vec<_>>()});
+    let t_new_start = Instant::now();
     let mut b = Backoff::new(g.cfg.real(unit), seeded(seed));
     let observe = |b: &Backoff| (b.verif_value().as_millis() as u64, b.verif_reset_after().as_millis() as u64 / unit);
     let mut path = vec![observe(&b)];
+    if path[0].0 < g.cfg.initial || path[0].0 > g.cfg.max_value {
+        let sig = if path[0].0 < g.cfg.initial { "value-below-initial" } else { "value-above-max" };
+        res.violation = Some((sig.into(), format!("Backoff::new starts with value = {} ms, configured initial = {} ms, max = {} ms (seed {seed})", path[0].0, g.cfg.initial, g.cfg.max_value), case(&path)));
+        return res;
+    }
     let mut node = match g.root.children.get(&path[0]) {
         Some(n) => n,
         None => {
@@ -131,33 +143,43 @@ fn walk(g: &Group, seed: u64, unit: u64) -> RunResult {
             return res;
         }
     };
+    // The harness's OWN bracket of the instant of the last reset (it does not trust the type's
+    // `last_reset_at`): the reset happened somewhere inside the call that performed it.
+    let mut reset_lo = t_new_start; // earliest possible instant of the last reset
+    let mut reset_hi = Instant::now(); // latest possible instant
     for (k, (a, _dt)) in g.schedule.iter().enumerate().skip(1) {
         let before = *path.last().unwrap();
         let mut definitely_elapsed = false;
         match a.as_str() {
             "Advance" => {} // the specification's clock; real time is arranged at the next Increment
-            "Reset" => b.reset(),
+            "Reset" => {
+                let t0 = Instant::now();
+                b.reset();
+                reset_lo = t0;
+                reset_hi = Instant::now();
+            }
             "Increment" => {
                 let want_elapsed = node.next_elapsed.expect("elapsed flag");
+                let reset_after = b.verif_reset_after();
                 if want_elapsed {
-                    // strictly longer than the interval: the code must see it as elapsed
-                    while b.verif_since_last_reset() <= b.verif_reset_after() {
-                        let left = b.verif_reset_after().saturating_sub(b.verif_since_last_reset());
-                        std::thread::sleep(left + Duration::from_millis(1));
+                    // strictly longer than the interval, counted from the LATEST instant the last
+                    // reset can have happened: the code must see the interval as elapsed
+                    while reset_hi.elapsed() <= reset_after {
+                        std::thread::sleep(reset_after.saturating_sub(reset_hi.elapsed()) + Duration::from_millis(1));
                     }
                     definitely_elapsed = true;
+                    let t0 = Instant::now();
                     b.increment();
+                    reset_lo = t0;
+                    reset_hi = Instant::now();
                     res.elapsed_resets += 1;
                 } else {
-                    // Not elapsed according to the specification: the harness does not wait. Bracket
-                    // what the call can have seen with the same monotonic clock; if the machine
-                    // stalled so long that the interval may have elapsed anyway, the run says nothing.
-                    let reset_after = b.verif_reset_after();
-                    let t0 = Instant::now();
-                    let since_before = b.verif_since_last_reset();
+                    // Not elapsed according to the specification: the harness does not wait. If even
+                    // after the call less than reset_after has passed since the EARLIEST instant
+                    // the last reset can have happened, the code cannot have seen it elapsed.
+                    // Otherwise the machine stalled and the run says nothing.
                     b.increment();
-                    let upper = since_before + t0.elapsed();
-                    if upper >= reset_after {
+                    if reset_lo.elapsed() >= reset_after {
                         res.inconclusive = true;
                     }
                 }
@@ -305,6 +327,8 @@ fn replay(args: &Args) {
     let exported: usize = groups.iter().map(|g| g.behaviours).sum();
     out.count_by("behaviours_exported", exported as u64);
     out.count_by("schedules", groups.len() as u64);
+    out.count_by("observation_paths_exported", groups.iter().map(|g| g.root.leaves()).sum());
+    let mut realised_paths: std::collections::BTreeSet<(usize, Vec<(u64, u64)>)> = Default::default();
     let mut realised_runs = 0u64;
     for (gi, seed, r) in results {
         out.eval();
@@ -319,6 +343,7 @@ fn replay(args: &Args) {
                     out.violation("C28", &sig, detail, case);
                 } else if let Some(path) = r.realised {
                     realised_runs += 1;
+                    realised_paths.insert((gi, path.clone()));
                     if r.saturated || r.elapsed_resets > 0 {
                         out.mark_distinct(format!("{gi}|{path:?}"));
                     }
@@ -330,6 +355,7 @@ fn replay(args: &Args) {
         }
     }
     out.count_by("runs_realising_an_exported_behaviour", realised_runs);
+    out.count_by("observation_paths_realised", realised_paths.len() as u64);
     if realised_runs == 0 && out.violations_total == 0 {
         eprintln!("vacuous: no run realised an exported behaviour");
         std::process::exit(2);
@@ -372,50 +398,70 @@ fn record(args: &Args) {
         let mut waits_left = if use_default || t_start.elapsed() > Duration::from_secs(60) { 0 } else { 2 };
         let r = catch(|| {
             let mut events = Vec::new();
+            // own bracket [reset_lo, reset_hi] of the instant of the last reset (see `walk`)
+            let mut reset_lo = Instant::now();
             let mut b = Backoff::new(real, seeded(seed));
+            let mut reset_hi = Instant::now();
             let obs = |b: &Backoff| (b.verif_value().as_millis() as u64, b.verif_reset_after().as_millis() as u64);
             let (v, r) = obs(&b);
             events.push(json!({"ev": "Reset", "run": run, "seed": seed, "cfg": cfg.json(), "value": v, "resetAfter": r}));
             let mut nontrivial = false;
+            let mut waited = 0u64;
             for _ in 0..calls {
                 let what = rng.below(20);
                 if what == 0 {
+                    let t0 = Instant::now();
                     b.reset();
+                    reset_lo = t0;
+                    reset_hi = Instant::now();
                     let (v, r) = obs(&b);
                     events.push(json!({"ev": "BackoffReset", "value": v, "resetAfter": r}));
                     continue;
                 }
                 if what == 1 && waits_left > 0 {
                     waits_left -= 1;
-                    // really wait until the interval has elapsed (strictly longer)
-                    while b.verif_since_last_reset() <= b.verif_reset_after() {
-                        let left = b.verif_reset_after().saturating_sub(b.verif_since_last_reset());
-                        std::thread::sleep(left + Duration::from_millis(1));
+                    // really wait until the interval has elapsed (strictly longer, from the latest
+                    // instant the last reset can have happened)
+                    let reset_after = b.verif_reset_after();
+                    while reset_hi.elapsed() <= reset_after {
+                        std::thread::sleep(reset_after.saturating_sub(reset_hi.elapsed()) + Duration::from_millis(1));
                     }
                     nontrivial = true;
+                    waited += 1;
                 } else if what == 2 && !use_default {
                     std::thread::sleep(Duration::from_millis(rng.range(1, 4)));
                 }
-                // bracket of "time since last reset" as seen inside the call: [lo, hi] in ms
+                // bracket of "time since the last reset" as the call can have seen it, in ms:
+                // at least (call start - latest reset instant), at most (call end - earliest reset instant)
+                let (v0, r0) = obs(&b);
                 let t0 = Instant::now();
-                let before = b.verif_since_last_reset();
+                let lo = t0.saturating_duration_since(reset_hi).as_millis() as u64;
                 b.increment();
-                let took = t0.elapsed();
-                let lo = before.as_millis() as u64;
-                let hi = (before + took).as_millis() as u64 + 1;
+                let t1 = Instant::now();
+                let hi = t1.saturating_duration_since(reset_lo).as_millis() as u64 + 1;
                 let (v, r) = obs(&b);
+                // did this call reset? certain if the interval was re-drawn or the value fell back;
+                // impossible if the value is not the initial one; otherwise unknown (bracket widens)
+                if v == cfg.initial && (r != r0 || v < v0) {
+                    reset_lo = t0;
+                    reset_hi = t1;
+                } else if v == cfg.initial {
+                    reset_hi = t1;
+                }
                 if v == cfg.max_value && cfg.max_value > cfg.initial {
                     nontrivial = true;
                 }
                 events.push(json!({"ev": "Tick", "lo": lo, "hi": hi}));
                 events.push(json!({"ev": "Increment", "value": v, "resetAfter": r}));
             }
-            (events, nontrivial)
+            (events, nontrivial, waited)
         });
         out.eval();
         match r {
             Err(p) => out.violation("C28", "backoff-panics", p, json!({"cfg": cfg.json(), "seed": seed})),
-            Ok((events, nontrivial)) => {
+            Ok((events, nontrivial, waited)) => {
+                out.count_by("real_waits_past_reset_after", waited);
+                out.count(if use_default { "runs_default_config" } else { "runs_ms_config" });
                 if nontrivial {
                     out.mark_distinct(format!("run{run}"));
                 }
